@@ -24,15 +24,16 @@ import (
 // C20: reflectively bound Go functions are called only within their declared contract.
 
 type c20Sig struct {
-	ID       string
-	Fn       any
-	Ctx      bool
-	Fixed    string
-	Variadic string
-	Res      string
-	Pkg      string
-	ErrS     error
-	setMode  func(int)
+	ID        string
+	Fn        any
+	Ctx       bool
+	Fixed     string
+	Variadic  string
+	Res       string
+	Pkg       string
+	ErrS      error
+	setMode   func(int)
+	lastPanic func() any
 }
 
 type c20Entry struct {
@@ -65,10 +66,10 @@ func c20Sigs(mon *c20Monitor) []c20Sig {
 	binderdot.Rec = mon.rec
 	var out []c20Sig
 	for _, s := range binder_nodot.Sigs {
-		out = append(out, c20Sig{s.ID, s.Fn, s.Ctx, s.Fixed, s.Variadic, s.Res, "nodot", binder_nodot.ErrS, func(m int) { binder_nodot.Mode = m }})
+		out = append(out, c20Sig{s.ID, s.Fn, s.Ctx, s.Fixed, s.Variadic, s.Res, "nodot", binder_nodot.ErrS, func(m int) { binder_nodot.Mode = m }, func() any { return binder_nodot.LastPanic }})
 	}
 	for _, s := range binderdot.Sigs {
-		out = append(out, c20Sig{s.ID, s.Fn, s.Ctx, s.Fixed, s.Variadic, s.Res, "dot", binderdot.ErrS, func(m int) { binderdot.Mode = m }})
+		out = append(out, c20Sig{s.ID, s.Fn, s.Ctx, s.Fixed, s.Variadic, s.Res, "dot", binderdot.ErrS, func(m int) { binderdot.Mode = m }, func() any { return binderdot.LastPanic }})
 	}
 	return out
 }
@@ -401,14 +402,25 @@ func c20Config(c *fw.Ctx, mon *c20Monitor, sg c20Sig, decl []int, bmin, bmax int
 				}
 				c20Catchable(c, e, evalCtx, form, input)
 				c.Count("panic_error_cases", 1)
-			case 4:
+			case 4, 5, 6, 7, 8:
+				kind := map[int]string{4: "index-out-of-range", 5: "failed-type-assertion", 6: "nil-map-write", 7: "nil-dereference", 8: "divide-by-zero"}[mode]
 				var re runtime.Error
-				if err == nil || !errors.As(err, &re) {
-					c.Violate(fw.Violation{Key: "panic-runtime-error-not-wrapped", What: fmt.Sprintf("a Go runtime panic (index out of range) inside the function: err=%v, errors.As(runtime.Error) fails: the original is no longer wrapped", err), Input: input})
+				orig, _ := sg.lastPanic().(error)
+				if err == nil || !errors.As(err, &re) || orig == nil || !errors.Is(err, orig) {
+					c.Violate(fw.Violation{Key: "panic-runtime-error-not-wrapped:" + kind, What: fmt.Sprintf("a Go runtime panic (%s) inside the function: err=%v; errors.As(runtime.Error) / errors.Is(err, the value recover() saw) fails: the original is no longer wrapped", kind, err), Input: input})
 					return
 				}
 				c20Catchable(c, e, evalCtx, form, input)
 				c.Count("panic_runtime_cases", 1)
+				c.Count("panic_runtime."+kind, 1)
+			case 9:
+				orig, _ := sg.lastPanic().(error)
+				if err == nil || orig == nil || !errors.Is(err, orig) {
+					c.Violate(fw.Violation{Key: "panic-error-not-wrapped:custom-type", What: fmt.Sprintf("panic(&CustomErr{}) inside the function: err=%v; errors.Is(err, that value) fails", err), Input: input})
+					return
+				}
+				c20Catchable(c, e, evalCtx, form, input)
+				c.Count("panic_custom_error_cases", 1)
 			case 3:
 				ev, ok := err.(interface{ ErrorValue() types.MalType })
 				if err == nil || !ok || ev.ErrorValue() != "boom-value" {
@@ -442,7 +454,7 @@ func c20Config(c *fw.Ctx, mon *c20Monitor, sg c20Sig, decl []int, bmin, bmax int
 		for i := range good {
 			good[i] = c20Good(paramAt(i), pool)
 		}
-		for mode := 0; mode <= 4; mode++ {
+		for mode := 0; mode <= 9; mode++ {
 			one(good, mode)
 		}
 		for i := 0; i < n; i++ {
@@ -514,7 +526,7 @@ func init() {
 	fw.Register(&fw.Property{
 		ID:     "C20",
 		Run:    runC20,
-		Rule:   "exhaustive table: 192 Go functions per package (context yes/no x fixed parameters {none, M, I, S, *Atom, MM, IS, AM} x variadic {none, ...MalType, ...int} x results {none, error, (MalType,error), (int,error)}) in two packages (import path with and without a dot) x declared bounds {none, (min), (min,max)} with 0<=min<=max<=fixed+3 x entry points Call and CallOverrideFN; for every argument count 0..max+2: the all-assignable tuple in 4 behaviours (return value, return error, panic(error), panic(value)) and every single-position substitution by each of 8 argument kinds (nil, int, string, keyword, list, vector, map, atom); entry monitors record whether and with what the function was entered; results, errors (errors.Is, ErrorValue), catchability through try/catch, context injection and the registered name are compared with the contract; distinct = distinct (signature, package, bounds, entry point) configurations; function identity: closures of one literal and method values of one method (with/without context, variadic, declared bounds) registered as the same lisp name in three environments, re-registered in one, registered in reverse order: every call must enter exactly the value registered there",
+		Rule:   "exhaustive table: 192 Go functions per package (context yes/no x fixed parameters {none, M, I, S, *Atom, MM, IS, AM} x variadic {none, ...MalType, ...int} x results {none, error, (MalType,error), (int,error)}) in two packages (import path with and without a dot) x declared bounds {none, (min), (min,max)} with 0<=min<=max<=fixed+3 x entry points Call and CallOverrideFN; for every argument count 0..max+2: the all-assignable tuple in 10 behaviours (return value, return error, panic(sentinel error), panic(value), five kinds of Go runtime panic: index out of range, failed type assertion, nil-map write, nil dereference, integer divide by zero, and panic(error of a custom type); for the last six the value recover() sees inside the function is recorded and must be reachable with errors.Is) and every single-position substitution by each of 8 argument kinds (nil, int, string, keyword, list, vector, map, atom); entry monitors record whether and with what the function was entered; results, errors (errors.Is, ErrorValue), catchability through try/catch, context injection and the registered name are compared with the contract; distinct = distinct (signature, package, bounds, entry point) configurations; function identity: closures of one literal and method values of one method (with/without context, variadic, declared bounds) registered as the same lisp name in three environments, re-registered in one, registered in reverse order: every call must enter exactly the value registered there",
 		Assume: []string{"declared bounds count lisp arguments (the context parameter is not an argument)", "nil given to a pointer parameter is left unspecified", "declarations the binder rejects by design (bounds on a non-variadic function, more than two results) are not generated"},
 		Level:  "exploration",
 		Finish: func(m *fw.Merged) {
